@@ -185,3 +185,28 @@ func FuzzOTLP(f *testing.F) {
 		}
 	})
 }
+
+// runRapid is rapid.Check, except inside FuzzRapid, where the property is fed
+// from the fuzzer's bytes instead.
+var runRapid = func(t *testing.T, prop func(*rapid.T)) { rapid.Check(t, prop) }
+
+var fuzzableTests = map[string]func(*testing.T){"C12": TestC12, "C13": TestC13, "C14": TestC14}
+
+// FuzzRapid drives the rapid generator and oracle of Test<VERIF_PROPERTY> from
+// the bytes of Go's coverage-guided fuzzer (rapid.MakeFuzz): same domain, same
+// oracle, but the search is steered by branch coverage of the encoder.
+func FuzzRapid(f *testing.F) {
+	id := os.Getenv("VERIF_PROPERTY")
+	test, ok := fuzzableTests[id]
+	if !ok {
+		f.Skip("VERIF_PROPERTY names no fuzzable rapid property")
+	}
+	for i := 0; i < 32; i++ {
+		f.Add(kit.SeedBytes(fmt.Sprintf("%s/%d", id, i), 16384))
+	}
+	fuzzNoExpensive = true
+	f.Fuzz(func(t *testing.T, data []byte) {
+		runRapid = func(_ *testing.T, prop func(*rapid.T)) { rapid.MakeFuzz(prop)(t, data) }
+		test(t)
+	})
+}
